@@ -441,3 +441,344 @@ Proof.
       * rewrite <- (Uniq y (Fd' y Hy)); [exact Hy|now left].
       * rewrite <- (Uniq x (Fd' x Hx)); [exact Hx|now right].
 Qed.
+
+(* ================================================================ 4. .cidr, supernet(), the subnet scan *)
+Lemma ncidr_facts n : wf_net n ->
+  wfh (ncidr n) /\ nver (ncidr n) = nver n /\ nplen (ncidr n) = nplen n /\ nf (ncidr n) = nf n /\ nl (ncidr n) = nl n.
+Proof.
+  intros W. pose proof W as (Hv & Hval & Hp).
+  destruct (wf_view n W) as (_ & _ & PS & D & F0 & L & Hi & _).
+  assert (E: ncidr n = {| nver := nver n; nval := nf n; nplen := nplen n |}).
+  { unfold ncidr. rewrite (net_cidr_eq (width (nver n)) (nval n) (nplen n) Hp Hval). cbn [fst snd].
+    rewrite <- (nf_eq n W). reflexivity. }
+  rewrite E. destruct (mk_wfh (nver n) (nf n) (nplen n) Hv Hp F0 D Hi) as (A & B & C).
+  split; [exact A|]. split; [reflexivity|]. split; [reflexivity|]. split; [exact B|]. rewrite C, L. reflexivity.
+Qed.
+
+Lemma ncidr_id a : wfh a -> ncidr a = a.
+Proof.
+  intros H. pose proof H as (W & _). destruct (ncidr_facts a W) as (A & B & C & D & E).
+  apply wfh_eq; assumption.
+Qed.
+
+Lemma in_net_ncidr n ver z : wf_net n -> (in_net (ncidr n) ver z <-> in_net n ver z).
+Proof. intros W. destruct (ncidr_facts n W) as (_ & B & _ & D & E). unfold in_net. rewrite B, D, E. tauto. Qed.
+
+Definition sup_at (n : net) (r : Z) : net := ncidr {| nver := nver n; nval := nval (ncidr n); nplen := r |}.
+
+Lemma supernets_from_spec n : forall fuel q, 0 <= q <= nplen n -> Z.of_nat fuel > nplen n - q ->
+  forall s, In s (supernets_from fuel n q) <-> exists r, q <= r < nplen n /\ s = sup_at n r.
+Proof.
+  induction fuel as [|f IH]; intros q Hq Hf s; [cbn in Hf; lia|].
+  cbn [supernets_from]. destruct (Z.eqb_spec q (nplen n)) as [E|E].
+  - split; [intros []|]. intros (r & Hr & _). lia.
+  - cbn [In]. rewrite (IH (q + 1)) by lia. fold (sup_at n q). split.
+    + intros [<-|(r & Hr & Es)]; [exists q; split; [lia|reflexivity]|exists r; split; [lia|exact Es]].
+    + intros (r & Hr & Es). destruct (Z.eq_dec r q) as [->|N]; [left; now symmetry|right; exists r; split; [lia|exact Es]].
+Qed.
+
+Lemma supernets_spec a : wfh a ->
+  forall s, In s (supernets a) <-> exists r, 0 <= r < nplen a /\ s = sup_at a r.
+Proof.
+  intros H s. destruct (wfh_view a H) as (_ & Hp & _). unfold supernets. apply supernets_from_spec; lia.
+Qed.
+
+Lemma sup_at_facts a r : wfh a -> 0 <= r < nplen a ->
+  wfh (sup_at a r) /\ nver (sup_at a r) = nver a /\ nplen (sup_at a r) = r /\
+  nf (sup_at a r) = floor2 (nf a) (nw a - r).
+Proof.
+  intros H Hr. destruct (wfh_view a H) as (Hv & Hp & PS & D & F0 & L & Hi & V).
+  unfold sup_at. rewrite (ncidr_id a H).
+  set (X := {| nver := nver a; nval := nval a; nplen := r |}).
+  assert (WX: wf_net X).
+  { unfold wf_net, X; cbn [nver nval nplen]. split; [exact Hv|]. fold (nw a). split; lia. }
+  destruct (ncidr_facts X WX) as (A & B & C & E & _).
+  split; [exact A|]. split; [exact B|]. split; [exact C|]. rewrite E, (nf_eq X WX).
+  unfold X; cbn [nver nval nplen]. rewrite V. reflexivity.
+Qed.
+
+(* a stored strict supernet of a host is found by the supernet walk *)
+Lemma supernets_complete a k : wfh a -> wfh k -> nver k = nver a -> nplen k < nplen a ->
+  nf k <= nf a <= nl k -> In k (supernets a).
+Proof.
+  intros Ha Hk Ev Hp I. apply supernets_spec; [exact Ha|].
+  destruct (wfh_view k Hk) as (_ & Pk & PSk & Dk & _ & Lk & _).
+  exists (nplen k). split; [lia|].
+  destruct (sup_at_facts a (nplen k) Ha ltac:(lia)) as (A & B & C & E).
+  assert (Ew: nw k = nw a) by (unfold nw; now rewrite Ev).
+  assert (EF: nf (sup_at a (nplen k)) = nf k).
+  { rewrite E. symmetry. apply floor2_unique; [lia| |].
+    - rewrite <- Ew. exact Dk.
+    - rewrite <- Ew. fold (nS k). lia. }
+  apply wfh_eq; [exact Hk|exact A|congruence|congruence|].
+  destruct (wfh_view _ A) as (_ & _ & _ & _ & _ & Ls & _).
+  rewrite Lk, Ls, EF. unfold nS, nw. rewrite B, C, Ev. reflexivity.
+Qed.
+
+Lemma supernets_sound a s : wfh a -> nplen a = nw a -> In s (supernets a) ->
+  wfh s /\ nver s = nver a /\ nplen s < nplen a /\ nf s <= nf a /\ nl a <= nl s.
+Proof.
+  intros Ha Hh Is. apply supernets_spec in Is; [|exact Ha]. destruct Is as (r & Hr & ->).
+  destruct (sup_at_facts a r Ha Hr) as (A & B & C & E).
+  destruct (wfh_view a Ha) as (_ & Hp & PS & _ & _ & L & _).
+  destruct (wfh_view _ A) as (_ & _ & _ & _ & _ & Ls & _).
+  assert (S1: nS a = 1) by (unfold nS; rewrite Hh, Z.sub_diag; reflexivity).
+  pose proof (floor2_bounds (nf a) (nw a - r) ltac:(lia)) as FB.
+  split; [exact A|]. split; [exact B|]. split; [lia|].
+  assert (ES: nS (sup_at a r) = 2 ^ (nw a - r)) by (unfold nS, nw; rewrite B, C; reflexivity).
+  rewrite Ls, E, ES. lia.
+Qed.
+
+Definition subb (a x : net) : bool :=
+  negb (negb (nver x =? nver a) || key_eqb x a) && ((nf x >=? nf a) && (nl x <=? nl a)).
+
+Lemma scan_false a : forall d acc tr, scan_subnets d a acc = (false, tr) ->
+  tr = acc ++ filter (subb a) d /\
+  forall k, In k d -> nver k = nver a -> key_eqb k a = false -> nf k <= nf a -> nl k >= nl a ->
+    nf k >= nf a /\ nl k <= nl a.
+Proof.
+  induction d as [|c r IH]; intros acc tr E; cbn [scan_subnets] in E.
+  - inversion E; subst. cbn. rewrite app_nil_r. split; [reflexivity|intros k []].
+  - cbn [filter]. unfold subb at 1.
+    destruct (negb (nver c =? nver a) || key_eqb c a) eqn:E1; cbn [negb andb].
+    + destruct (IH _ _ E) as (A & B). split; [exact A|]. intros k [<-|Hk] Ev Ek; [|apply B; assumption].
+      exfalso. rewrite Ev, Z.eqb_refl, Ek in E1. discriminate.
+    + destruct ((nf c >=? nf a) && (nl c <=? nl a)) eqn:E2.
+      * destruct (IH _ _ E) as (A & B). split; [rewrite A, <- app_assoc; reflexivity|].
+        intros k [<-|Hk] Ev Ek; [|apply B; assumption]. intros _ _. lia.
+      * destruct ((nf c <=? nf a) && (nl c >=? nl a)) eqn:E3; [discriminate|].
+        destruct (IH _ _ E) as (A & B). split; [exact A|].
+        intros k [<-|Hk] Ev Ek; [|apply B; assumption]. intros. lia.
+Qed.
+
+Lemma scan_true a : forall d acc tr, scan_subnets d a acc = (true, tr) ->
+  exists k l, In k d /\ nver k = nver a /\ key_eqb k a = false /\ nf k <= nf a /\ nl k >= nl a /\
+    ~ (nf k >= nf a /\ nl k <= nl a) /\ tr = acc ++ l /\ forall x, In x l -> In x d /\ subb a x = true.
+Proof.
+  induction d as [|c r IH]; intros acc tr E; cbn [scan_subnets] in E; [discriminate|].
+  destruct (negb (nver c =? nver a) || key_eqb c a) eqn:E1.
+  - destruct (IH _ _ E) as (k & l & A1 & A2 & A3 & A4 & A5 & A6 & A7 & A8).
+    exists k, l. repeat (split; [first [assumption|now right]|]). intros x Hx. destruct (A8 x Hx). split; [now right|assumption].
+  - destruct ((nf c >=? nf a) && (nl c <=? nl a)) eqn:E2.
+    + destruct (IH _ _ E) as (k & l & A1 & A2 & A3 & A4 & A5 & A6 & A7 & A8).
+      exists k, (c :: l). repeat (split; [first [assumption|now right]|]).
+      split; [rewrite A7, <- app_assoc; reflexivity|].
+      intros x [<-|Hx]; [split; [now left|unfold subb; rewrite E1, E2; reflexivity]|].
+      destruct (A8 x Hx). split; [now right|assumption].
+    + destruct ((nf c <=? nf a) && (nl c >=? nl a)) eqn:E3.
+      * inversion E; subst. exists c, []. apply orb_false_iff in E1. destruct E1 as (E1 & E1').
+        split; [now left|]. split; [lia|]. split; [exact E1'|]. split; [lia|]. split; [lia|]. split; [lia|].
+        split; [now rewrite app_nil_r|intros x []].
+      * destruct (IH _ _ E) as (k & l & A1 & A2 & A3 & A4 & A5 & A6 & A7 & A8).
+        exists k, l. repeat (split; [first [assumption|now right]|]). intros x Hx. destruct (A8 x Hx). split; [now right|assumption].
+Qed.
+
+(* ================================================================ 5. _compact_single_network *)
+Definition subn (x a : net) : Prop := nver x = nver a /\ nf a <= nf x /\ nl x <= nl a.
+
+Lemma subn_dec x a : {subn x a} + {~ subn x a}.
+Proof.
+  unfold subn. destruct (Z.eq_dec (nver x) (nver a)), (Z_le_dec (nf a) (nf x)), (Z_le_dec (nl x) (nl a));
+    (left; tauto) || (right; tauto).
+Qed.
+
+Lemma subb_iff a x : wfh a -> wfh x -> (subb a x = true <-> subn x a /\ x <> a).
+Proof.
+  intros Ha Hx. unfold subb, subn. pose proof (key_eqb_iff x a Hx Ha) as K.
+  destruct (key_eqb x a).
+  - rewrite orb_true_r. cbn. split; [discriminate|]. intros (_ & N). exfalso. apply N. now apply K.
+  - rewrite orb_false_r. split.
+    + intros E. split; [lia|]. intros ->. destruct K as [_ K]. specialize (K eq_refl). discriminate.
+    + intros ((A & B & C) & _). lia.
+Qed.
+
+Lemma SetInv'_ext d d' : WD d' -> (forall x, In x d' <-> In x d) -> SetInv' d -> SetInv' d'.
+Proof.
+  intros W M (_ & P & S). split; [exact W|split].
+  - intros x y Hx Hy. apply P; apply M; assumption.
+  - intros x y Hx Hy. apply S; apply M; assumption.
+Qed.
+
+Lemma strict_super_plen k a : wfh k -> wfh a -> nver k = nver a -> nf k <= nf a -> nl a <= nl k -> k <> a ->
+  nplen k < nplen a.
+Proof.
+  intros Hk Ha Ev A B N. pose proof (sub_plen k a Hk Ha Ev A B) as LE.
+  destruct (Z.eq_dec (nplen k) (nplen a)) as [E|]; [exfalso|lia].
+  destruct (wfh_view k Hk) as (_ & _ & _ & _ & _ & Lk & _).
+  destruct (wfh_view a Ha) as (_ & _ & _ & _ & _ & La & _).
+  assert (nS k = nS a) by (unfold nS, nw; now rewrite Ev, E).
+  apply N. apply wfh_eq; try assumption; lia.
+Qed.
+
+Definition phase1 (d : dict) (added : net) : outcome (bool * dict) :=
+  let w := width (nver added) in
+  if nplen added =? w then
+    (if existsb (fun s => dmem s d) (supernets added)
+     then do d' <- ddel d added; Ok (true, d') else Ok (false, d))
+  else
+    let '(found_super, to_remove) := scan_subnets d added [] in
+    if found_super then do d' <- ddel d added; Ok (true, d')
+    else do d' <- ddel_all d to_remove; Ok (false, d').
+
+Lemma compact_single_unfold d a :
+  compact_single d a =
+  do d1 <- phase1 d a;
+  let '(finished, d2) := d1 in
+  if finished then Ok d2 else merge_up (Z.to_nat (nplen a) + 1) d2 a (nw a - nplen a).
+Proof. reflexivity. Qed.
+
+Section CS.
+Variables (d0 : list net) (a : net).
+Hypothesis Inv0 : SetInv' d0.
+Hypothesis Ha : wfh a.
+Let d := dset d0 a.
+
+Lemma cs_dset : WD d /\ forall x, In x d <-> In x d0 \/ x = a.
+Proof. destruct Inv0 as (W0 & _). apply b_dset_spec; assumption. Qed.
+
+(* a stored strict supernet: the new key is redundant, deleting it restores the old dict *)
+Lemma cs_super_case s : In s d0 -> s <> a -> nver s = nver a -> nf s <= nf a -> nl a <= nl s ->
+  exists d', ddel d a = Ok d' /\ SetInv' d' /\ forall ver z, den d' ver z <-> den d0 ver z \/ in_net a ver z.
+Proof.
+  intros Is Ns Ev A B. destruct Inv0 as (W0 & P0 & S0). destruct cs_dset as (Wd & Md).
+  pose proof W0 as (F0 & _). rewrite Forall_forall in F0.
+  destruct (wfh_view a Ha) as (_ & _ & PSa & _ & _ & La & _).
+  assert (Na: ~ In a d0).
+  { intros Ia. apply (P0 s a Is Ia Ns). apply overlap_iff; [apply F0, Is|exact Ha|]. split; [exact Ev|lia]. }
+  destruct (b_ddel_spec d a Ha Wd) as (d' & E' & W' & M'); [apply Md; now right|].
+  assert (M0: forall x, In x d' <-> In x d0).
+  { intros x. rewrite M', Md. split; [intros [[?|?] ?]; [assumption|contradiction]|].
+    intros Hx. split; [now left|]. intros ->. contradiction. }
+  exists d'. split; [exact E'|]. split; [apply (SetInv'_ext d0); [exact W'|exact M0|exact Inv0]|].
+  intros ver z. rewrite (den_ext d0 d' M0). split; [tauto|]. intros [H|(E & I)]; [exact H|].
+  exists s. split; [exact Is|]. unfold in_net. split; [congruence|lia].
+Qed.
+
+(* no stored strict supernet, the stored subnets deleted: ready for the sibling-merge loop *)
+Lemma cs_F_case d2 : In a d2 ->
+  (forall x, In x d2 -> x = a \/ (In x d0 /\ ~ subn x a)) ->
+  (forall x, In x d0 -> ~ subn x a -> In x d2) ->
+  (forall k, In k d0 -> k <> a -> nver k = nver a -> ~ (nf k <= nf a /\ nl a <= nl k)) ->
+  PDisj d2 /\ (forall x y, In x d2 -> In y d2 -> siblings x y -> x = a \/ y = a) /\
+  forall ver z, den d2 ver z <-> den d0 ver z \/ in_net a ver z.
+Proof.
+  intros Ia H2 H3 H4. destruct Inv0 as (W0 & P0 & S0).
+  pose proof W0 as (F0 & _). rewrite Forall_forall in F0.
+  assert (Saa: subn a a) by (unfold subn; lia).
+  assert (Hdis: forall x, In x d0 -> ~ subn x a -> ~ overlap a x).
+  { intros x Ix Nx Ov. pose proof (F0 x Ix) as Hx.
+    assert (Nxa: x <> a) by (intros ->; contradiction).
+    apply overlap_iff in Ov; [|exact Ha|exact Hx]. destruct Ov as (Ev & O1 & O2).
+    destruct (Z_le_gt_dec (nplen a) (nplen x)) as [LE|GT].
+    - destruct (nest_or_disj a x Ha Hx Ev LE) as [N|[N|N]]; [|lia|lia]. apply Nx. unfold subn. split; [congruence|lia].
+    - destruct (nest_or_disj x a Hx Ha (eq_sym Ev) ltac:(lia)) as [N|[N|N]]; [|lia|lia].
+      apply (H4 x Ix Nxa (eq_sym Ev)). lia. }
+  split; [|split].
+  - intros x y Hx Hy Nxy Ov. destruct (H2 x Hx) as [->|(Ix & Sx)], (H2 y Hy) as [->|(Iy & Sy)].
+    + congruence.
+    + apply (Hdis y Iy Sy Ov).
+    + apply (Hdis x Ix Sx). apply overlap_sym. exact Ov.
+    + apply (P0 x y Ix Iy Nxy Ov).
+  - intros x y Hx Hy Sxy. destruct (H2 x Hx) as [->|(Ix & Sx)]; [now left|].
+    destruct (H2 y Hy) as [->|(Iy & Sy)]; [now right|]. exfalso. apply (S0 x y Ix Iy Sxy).
+  - intros ver z. unfold den. split.
+    + intros (n & Hn & I). destruct (H2 n Hn) as [->|(In0 & _)]; [now right|left; eauto].
+    + intros [(n & Hn & I)|I]; [|exists a; tauto].
+      destruct (subn_dec n a) as [(E1 & E2 & E3)|Nn]; [|exists n; split; [apply H3; assumption|exact I]].
+      exists a. split; [exact Ia|]. unfold in_net in *. split; [lia|lia].
+Qed.
+
+Lemma cs_phase1 : exists fin d2, phase1 d a = Ok (fin, d2) /\
+  (forall ver z, den d2 ver z <-> den d0 ver z \/ in_net a ver z) /\
+  if fin then SetInv' d2
+  else WD d2 /\ PDisj d2 /\ In a d2 /\ (forall x y, In x d2 -> In y d2 -> siblings x y -> x = a \/ y = a).
+Proof.
+  pose proof Inv0 as (W0 & P0 & S0). destruct cs_dset as (Wd & Md).
+  pose proof W0 as (F0 & _). rewrite Forall_forall in F0.
+  pose proof Wd as (Fd & Nd). pose proof Fd as Fd'. rewrite Forall_forall in Fd'.
+  assert (Iad: In a d) by (apply Md; now right).
+  unfold phase1. fold (nw a). destruct (Z.eqb_spec (nplen a) (nw a)) as [Eh|Eh].
+  - (* a single address: walk its supernets *)
+    destruct (existsb (fun s => dmem s d) (supernets a)) eqn:EX.
+    + apply existsb_exists in EX. destruct EX as (s & Is & Ms).
+      destruct (supernets_sound a s Ha Eh Is) as (Ws & Ev & Pl & A & B).
+      apply (b_dmem_iff s d Ws Fd) in Ms. apply Md in Ms.
+      destruct Ms as [Ms| ->]; [|lia].
+      destruct (cs_super_case s Ms ltac:(intros ->; lia) Ev A B) as (d' & E' & I' & D').
+      rewrite E'. cbn [bind]. exists true, d'. split; [reflexivity|split; [exact D'|exact I']].
+    + exists false, d. split; [reflexivity|].
+      assert (host_sub: forall x, wfh x -> subn x a -> x = a).
+      { intros x Hx (E1 & E2 & E3).
+        destruct (wfh_view x Hx) as (_ & _ & PSx & _ & _ & Lx & _).
+        destruct (wfh_view a Ha) as (_ & _ & PSa & _ & _ & La & _).
+        assert (S1: nS a = 1) by (unfold nS; rewrite Eh, Z.sub_diag; reflexivity).
+        apply wfh_eq; try assumption; lia. }
+      destruct (cs_F_case d Iad) as (A & B & C).
+      * intros x Hx. apply Md in Hx. destruct Hx as [Hx| ->]; [|now left].
+        destruct (net_eq_dec x a) as [->|N]; [now left|right]. split; [exact Hx|].
+        intros Sx. apply N, host_sub; [apply F0, Hx|exact Sx].
+      * intros x Hx _. apply Md. now left.
+      * intros k Ik Nk Ev (A & B).
+        pose proof (strict_super_plen k a (F0 k Ik) Ha Ev A B Nk) as Pl.
+        destruct (wfh_view a Ha) as (_ & _ & PSa & _ & _ & La & _).
+        pose proof (supernets_complete a k Ha (F0 k Ik) Ev Pl ltac:(lia)) as Isup.
+        assert (T: existsb (fun s => dmem s d) (supernets a) = true).
+        { apply existsb_exists. exists k. split; [exact Isup|]. apply b_dmem_iff; [apply F0, Ik|exact Fd|].
+          apply Md. now left. }
+        rewrite EX in T. discriminate.
+      * split; [exact C|]. split; [exact Wd|]. split; [exact A|]. split; [exact Iad|exact B].
+  - (* a block: scan the stored keys *)
+    destruct (scan_subnets d a []) as [fs tr] eqn:ES. destruct fs.
+    + destruct (scan_true a d [] tr ES) as (k & l & Ik & Ev & Ek & A & B & _).
+      assert (Nk: k <> a) by (apply key_eqb_false; [apply Fd', Ik|exact Ha|exact Ek]).
+      apply Md in Ik. destruct Ik as [Ik|]; [|contradiction].
+      destruct (cs_super_case k Ik Nk Ev A ltac:(lia)) as (d' & E' & I' & D').
+      rewrite E'. cbn [bind]. exists true, d'. split; [reflexivity|split; [exact D'|exact I']].
+    + destruct (scan_false a d [] tr ES) as (Etr & NoSup). cbn [app] in Etr. subst tr.
+      destruct (b_ddel_all_spec (filter (subb a) d) d) as (d2 & E2 & W2 & M2).
+      * rewrite Forall_forall. intros x Hx. apply filter_In in Hx. apply Fd'. tauto.
+      * apply NoDup_filter. exact Nd.
+      * intros x Hx. apply filter_In in Hx. tauto.
+      * exact Wd.
+      * rewrite E2. cbn [bind]. exists false, d2. split; [reflexivity|].
+        assert (Ia2: In a d2).
+        { apply M2. split; [exact Iad|]. intros Hx. apply filter_In in Hx. destruct Hx as (_ & Hx).
+          apply (subb_iff a a Ha Ha) in Hx. tauto. }
+        destruct (cs_F_case d2 Ia2) as (A & B & C).
+        -- intros x Hx. apply M2 in Hx. destruct Hx as (Hx & Nf). apply Md in Hx.
+           destruct Hx as [Hx| ->]; [|now left]. destruct (net_eq_dec x a) as [->|N]; [now left|right].
+           split; [exact Hx|]. intros Sx. apply Nf. apply filter_In. split; [apply Md; now left|].
+           apply subb_iff; [exact Ha|apply F0, Hx|tauto].
+        -- intros x Hx Nx. apply M2. split; [apply Md; now left|]. intros Hf. apply filter_In in Hf.
+           destruct Hf as (_ & Hf). apply subb_iff in Hf; [tauto|exact Ha|apply F0, Hx].
+        -- intros k Ik Nk Ev (A & B).
+           destruct (NoSup k) as (A' & B'); [apply Md; now left|exact Ev| |exact A|lia|].
+           { apply key_eqb_false; [apply F0, Ik|exact Ha|exact Nk]. }
+           apply Nk. apply wfh_eq; [apply F0, Ik|exact Ha|exact Ev|lia|lia].
+        -- split; [exact C|]. split; [exact W2|]. split; [exact A|]. split; [exact Ia2|exact B].
+Qed.
+
+Lemma cs_spec' : exists d', compact_single d a = Ok d' /\ SetInv' d' /\
+  forall ver z, den d' ver z <-> den d0 ver z \/ in_net a ver z.
+Proof.
+  destruct cs_phase1 as (fin & d2 & E & D & R). rewrite compact_single_unfold, E. cbn [bind].
+  destruct fin.
+  - exists d2. split; [reflexivity|split; [exact R|exact D]].
+  - destruct R as (W2 & P2 & I2 & S2).
+    destruct (wfh_view a Ha) as (_ & Hp & _).
+    destruct (merge_up_spec (Z.to_nat (nplen a) + 1) d2 a ltac:(lia) W2 P2 I2 S2) as (d' & E' & I' & D').
+    exists d'. split; [exact E'|split; [exact I'|]]. intros ver z. rewrite D'. apply D.
+Qed.
+End CS.
+
+(* C06_compact_single: after `self._cidrs[a] = True` for a host-bit-free network a on a canonical dict d0,
+   _compact_single_network(a) returns normally (no KeyError / IndexError / OutOfFuel), the dict is canonical again
+   and denotes den d0 ∪ a.  (Whether a was already stored, lies inside a stored key, covers stored keys or is
+   disjoint from all of them needs no hypothesis: aligned blocks are nested or disjoint.) *)
+Theorem compact_single_spec d0 a : SetInv d0 -> wfh a ->
+  exists d', compact_single (dset d0 a) a = Ok d' /\ SetInv d' /\
+    forall ver x, den d' ver x <-> den d0 ver x \/ in_net a ver x.
+Proof.
+  intros I H. apply b_SetInv_iff in I. destruct (cs_spec' d0 a I H) as (d' & E & I' & D).
+  exists d'. split; [exact E|split; [apply b_SetInv_iff; exact I'|exact D]].
+Qed.
